@@ -1132,3 +1132,276 @@ func prnGenHeaderFile(r *Rand, spaced bool) []prnTok {
 	b.t(prnNl, "}")
 	return b.toks
 }
+
+// ---------------------------------------------------------------- option-literal-shapes family
+//
+// One option message literal per file, at a file / message / field / enum-value / service+method
+// option position, over a fixed set of literal SHAPES ({} and <> delimiters nested and mixed,
+// list literals of scalars and of messages, `:` present or omitted before message values,
+// `,` / `;` / no separators, extension names and Any type URLs in brackets, string concatenation,
+// signed numbers, empty literals, one-line and multi-line layouts), crossed with a comment or a
+// blank line at EVERY token boundary of the literal (from the `=` in front of it to the token
+// behind it).
+
+// prnLitShapes: space-separated tokens; the two characters \n make the next token start a new line.
+var prnLitShapes = []string{
+	`{ a : 1 , b : "x" }`,
+	`{ a : - 1 ; b : "x" "y" ; }`,
+	`{ a : 1 b : "x" c : 2 c : 3 }`,
+	`{ c : [ 1 , 2 , 3 ] }`,
+	`{ d { a : 1 } }`,
+	`{ d : { a : 1 } , a : 2 }`,
+	`{ d < a : 2 > }`,
+	`{ d : < a : 2 b : "z" > a : 3 }`,
+	`{ e : [ { a : 1 } , < a : 2 > ] }`,
+	`{ e { a : 1 } e < a : 2 > }`,
+	`{ [ lit . x ] : 5 , a : 1 }`,
+	`{ y { [ type . googleapis . com / lit . L ] { a : 1 } } }`,
+	`{ d < d { d < a : 1 > } > }`,
+	`{ \n a : 1 , \n d < \n a : 2 \n > \n }`,
+	`{ \n d : { \n a : 1 ; \n b : "x" \n "y" \n } \n c : [ \n 1 , \n 2 \n ] \n }`,
+	`{ }`,
+	`{ d { } e < > }`,
+	`{ \n e : [ \n < a : 1 > , \n { b : "q" } \n ] \n }`,
+	`{ d < \n a : 2 > }`,
+}
+
+const prnLitPositions = 6
+
+// prnLitFile builds the file for (shape, position) and returns the token range [lo, hi] whose
+// leading gaps are the boundaries of the literal (`=` .. the token behind the literal).
+func prnLitFile(shape string, pos int, syntax string) (toks []prnTok, ranges [][2]int) {
+	var lo, hi int
+	b := &prnBuilder{r: NewRand(1), syntax: syntax}
+	opt := "optional"
+	if syntax == "proto3" {
+		opt = ""
+	}
+	fld := func(label, ty, name, num string) {
+		if label != "" {
+			b.t(prnNl, label, ty, name, "=", num)
+		} else {
+			b.t(prnNl, ty, name, "=", num)
+		}
+		b.tight(";")
+	}
+	b.t(prnTight, "syntax", "=", `"`+syntax+`"`)
+	b.tight(";")
+	b.t(prnNl, "package", "lit")
+	b.tight(";")
+	b.t(prnNl, "import", `"google/protobuf/any.proto"`)
+	b.tight(";")
+	b.t(prnNl, "import", `"google/protobuf/descriptor.proto"`)
+	b.tight(";")
+	b.t(prnNl2, "message", "L", "{")
+	b.depth++
+	fld(opt, "int32", "a", "1")
+	fld(opt, "string", "b", "2")
+	fld("repeated", "int32", "c", "3")
+	fld(opt, "L", "d", "4")
+	fld("repeated", "L", "e", "5")
+	if opt != "" {
+		b.t(prnNl, opt, "google")
+	} else {
+		b.t(prnNl, "google")
+	}
+	b.tight(".", "protobuf", ".", "Any")
+	b.t(prnSp, "y", "=", "6")
+	b.tight(";")
+	if syntax == "proto2" {
+		b.t(prnNl, "extensions", "100", "to", "200")
+		b.tight(";")
+	}
+	b.depth--
+	b.t(prnNl, "}")
+	if syntax == "proto2" {
+		b.t(prnNl2, "extend", "L", "{")
+		b.depth++
+		fld("optional", "int32", "x", "100")
+		b.depth--
+		b.t(prnNl, "}")
+	}
+	ext := func(target, name, num string) {
+		b.t(prnNl2, "extend", "google")
+		b.tight(".", "protobuf", ".", target)
+		b.t(prnSp, "{")
+		b.depth++
+		fld(opt, "L", name, num)
+		b.depth--
+		b.t(prnNl, "}")
+	}
+	// only the extensions the position needs (keeps the files small)
+	switch pos {
+	case 0:
+		ext("FileOptions", "fo", "51000")
+	case 1:
+		ext("MessageOptions", "mo", "51001")
+	case 2, 3:
+		ext("FieldOptions", "flo", "51002")
+	case 4:
+		ext("EnumValueOptions", "evo", "51003")
+	default:
+		ext("ServiceOptions", "so", "51004")
+		ext("MethodOptions", "meo", "51005")
+	}
+	for i := range b.toks {
+		b.toks[i].lock = true
+	}
+	lit := func() {
+		lo = len(b.toks) - 1 // the `=`
+		next := prnSp
+		depth0 := b.depth
+		for _, w := range strings.Split(shape, " ") {
+			if w == "" {
+				continue
+			}
+			if w == `\n` {
+				next = prnNl
+				continue
+			}
+			if w == "}" || w == ">" || w == "]" {
+				if b.depth > depth0 {
+					b.depth--
+				}
+			}
+			b.toks = append(b.toks, prnTok{text: w, hint: next, depth: b.depth})
+			next = prnSp
+			if w == "{" || w == "<" || w == "[" {
+				b.depth++
+			}
+		}
+		b.depth = depth0
+	}
+	name := func(h prnHint, lead []string, n string) {
+		b.t(h, lead...)
+		if len(lead) > 0 {
+			b.t(prnSp, "(")
+		} else {
+			b.t(h, "(")
+		}
+		b.tight(n, ")")
+		b.t(prnSp, "=")
+	}
+	switch pos {
+	case 0: // file option
+		name(prnNl2, []string{"option"}, "fo")
+		lit()
+		b.tight(";")
+		hi = len(b.toks) - 1
+	case 1: // message option
+		b.t(prnNl2, "message", "M", "{")
+		b.depth++
+		name(prnNl, []string{"option"}, "mo")
+		lit()
+		b.tight(";")
+		hi = len(b.toks) - 1
+		fld(opt, "int32", "q", "1")
+		b.depth--
+		b.t(prnNl, "}")
+	case 2, 3: // field compact options, alone / after another option
+		b.t(prnNl2, "message", "M", "{")
+		b.depth++
+		if opt != "" {
+			b.t(prnNl, opt, "int32", "q", "=", "1", "[")
+		} else {
+			b.t(prnNl, "int32", "q", "=", "1", "[")
+		}
+		if pos == 3 {
+			b.tight("deprecated")
+			b.t(prnSp, "=", "true")
+			b.tight(",")
+			name(prnSp, nil, "flo")
+		} else {
+			name(prnTight, nil, "flo")
+		}
+		lit()
+		b.tight("]")
+		hi = len(b.toks) - 1
+		b.tight(";")
+		b.depth--
+		b.t(prnNl, "}")
+	case 4: // enum value compact options
+		b.t(prnNl2, "enum", "E", "{")
+		b.depth++
+		b.t(prnNl, "E_A", "=", "0", "[")
+		name(prnTight, nil, "evo")
+		lit()
+		b.tight("]")
+		hi = len(b.toks) - 1
+		b.tight(";")
+		b.depth--
+		b.t(prnNl, "}")
+	default: // service option and method option
+		b.t(prnNl2, "service", "S", "{")
+		b.depth++
+		name(prnNl, []string{"option"}, "so")
+		lit()
+		b.tight(";")
+		ranges = append(ranges, [2]int{lo, len(b.toks) - 1})
+		b.t(prnNl, "rpc", "R")
+		b.tight("(", "L", ")")
+		b.t(prnSp, "returns", "(")
+		b.tight("L", ")")
+		b.t(prnSp, "{")
+		b.depth++
+		name(prnNl, []string{"option"}, "meo")
+		lit()
+		b.tight(";")
+		hi = len(b.toks) - 1
+		b.depth--
+		b.t(prnNl, "}")
+		b.depth--
+		b.t(prnNl, "}")
+	}
+	ranges = append(ranges, [2]int{lo, hi})
+	return b.toks, ranges
+}
+
+// prnLitTrivia: what is put at a token boundary of the literal.
+var prnLitTrivia = []string{" // c\n", " /* c */ ", "\n\n", "\n// c\n", "\n", "\n  /* m\n   * n */\n"}
+
+// prnLitSources: the family for one tier (quick: one or two positions per shape; thorough: all).
+func prnLitSources(r *Rand, tier string, trivia []string) []string {
+	var out []string
+	for si, shape := range prnLitShapes {
+		positions := []int{si % prnLitPositions}
+		if strings.Contains(shape, "<") {
+			positions = append(positions, (si+3)%prnLitPositions)
+		}
+		if tier == "thorough" {
+			positions = []int{0, 1, 2, 3, 4, 5}
+		}
+		for _, pos := range positions {
+			syntax := "proto2"
+			if !strings.Contains(shape, "lit . x") && (si+pos)%4 == 3 {
+				syntax = "proto3"
+			}
+			toks, ranges := prnLitFile(shape, pos, syntax)
+			out = append(out, prnAssemble(toks, nil, "\n"))
+			var bounds []int
+			for _, rg := range ranges {
+				for i := rg[0]; i <= rg[1]+1 && i < len(toks); i++ {
+					bounds = append(bounds, i)
+				}
+			}
+			for _, i := range bounds {
+				for _, tv := range trivia {
+					out = append(out, prnAssemble(toks, map[int]string{i: tv}, "\n"))
+				}
+			}
+			// two boundaries at once
+			n := 6
+			if tier == "thorough" {
+				n = 60
+			}
+			for k := 0; k < n; k++ {
+				g := map[int]string{}
+				for j := 0; j < 2+r.Intn(2); j++ {
+					g[Pick(r, bounds)] = Pick(r, trivia)
+				}
+				out = append(out, prnAssemble(toks, g, "\n"))
+			}
+		}
+	}
+	return out
+}
